@@ -29,6 +29,7 @@ type CEnv struct {
 	atPos     token.Pos
 	done      func(n, t string) string // iterator invariants: entries already visited
 	parentEntry *State // closures: the state in which the enclosing function was entered (pfresh)
+	bound     map[string]bool // names bound by quantifiers / predicate parameters (never shadowed by locals)
 }
 
 var (
@@ -122,6 +123,10 @@ func (e *CEnv) sub() *CEnv {
 	n.names = make(map[string]Val, len(e.names))
 	for k, v := range e.names {
 		n.names[k] = v
+	}
+	n.bound = make(map[string]bool, len(e.bound))
+	for k := range e.bound {
+		n.bound[k] = true
 	}
 	return &n
 }
@@ -221,6 +226,7 @@ func (e *CEnv) eval(x *CExpr) (Val, error) {
 			vn = fmt.Sprintf("%s!%d", vn, c.smt.nextID)
 			decls = append(decls, fmt.Sprintf("(%s %s)", vn, c.sortOf(t)))
 			n.names[v.Name] = Val{T: t, Term: vn}
+			n.bound[v.Name] = true
 			if b, ok := t.Underlying().(*types.Basic); ok && b.Kind() != types.Int && b.Info()&types.IsInteger != 0 {
 				guards = append(guards, rangeFact(t, vn))
 			}
@@ -255,6 +261,9 @@ func (e *CEnv) eval(x *CExpr) (Val, error) {
 
 func (e *CEnv) ident(name string) (Val, error) {
 	c := e.c
+	if e.bound[name] {
+		return e.names[name], nil
+	}
 	if v, ok := e.names[name]; ok && !(e.useLocals && !e.inOld && e.localShadows(name)) {
 		return v, nil
 	}
